@@ -95,9 +95,81 @@ package transaction
 //@   props C05
 //@   requires p != nil && gp != nil && tx != nil && tx.data.GasPrice != nil && val(tx.data.GasPrice) >= 0 && len(tx.data.Message) <= 1024
 //@   let payer = p.am.GetAccount(tx.GasPayer()); fee = int(tx.GasLimit()) * val(tx.data.GasPrice)
+//@   modifies gh("balance", payer), *gp
 //@   ensures result1 == nil ==> types.balanceOf(payer) == old(types.balanceOf(payer)) - fee && *gp == old(*gp) - tx.GasLimit() && result0 <= gasLimit
-//@   ensures result1 != nil ==> result0 == 0
+//@   ensures result1 != nil ==> result0 == 0 && *gp <= old(*gp)
 //@   nopanic
+
+// One included transaction, end to end.  Execution itself (handleTx: EVM, votes, assets, boxes) is not under contract: its
+// assumed contract publishes, in the ghost array "hx", what it saw and what it left (0: the payer's balance it left, 1: the
+// gas pool it left, 2: the payer's balance it was handed, 3: the rest gas it returned), so that applyTx can be held to:
+// the transaction is authorised (C06); execution starts with the payer debited by exactly gasLimit x gasPrice; and on EVERY
+// path that includes the transaction the payer gets back exactly rest x gasPrice and the pool rest, where
+// gasUsed == gasLimit - rest (+ the gas used by the sub-transactions of a box, which their own payers are charged for).
+//@ func (*TxProcessor).VerifyAssetTx   trusted
+//@   modifies nothing
+
+//@ func (*TxProcessor).VerifyTxBeforeApply
+//@   props C05 C06
+//@   requires p != nil && p.am != nil && tx != nil
+//@   modifies nothing
+//@   ensures result == nil ==> p.verifyTransactionSigs(tx) == nil
+
+//@ func (*TxProcessor).handleTx   trusted
+//@   modifies allbut(TxProcessor, types.Transaction, types.txdata, types.Header, []*types.Transaction, params, "bigval")
+//@   let payer = p.am.GetAccount(tx.GasPayer())
+//@   ensures gas <= restGas
+//@   ensures err == nil ==> int(*gp) == old(int(*gp)) - gh("boxSubGas", 0)
+//@   ensures err != nil ==> int(*gp) <= old(int(*gp))
+//@   ensures gh("hx", 0) == types.balanceOf(payer) && gh("hx", 1) == int(*gp) && gh("hx", 2) == old(types.balanceOf(payer)) && gh("hx", 3) == int(gas)
+//@   ensures err == nil ==> int(gasUsed) == int(tx.GasLimit()) - int(gas) + gh("boxSubGas", 0) && gh("boxSubGas", 0) >= 0
+//@   ensures err == nil && tx.Type() != params.BoxTx ==> gh("boxSubGas", 0) == 0
+//@   ensures val(tx.data.GasPrice) == old(val(tx.data.GasPrice)) && tx.GasPayer() == old(tx.GasPayer())
+//@   ensures types.balanceOf(payer) >= 0 && int(*gp) + int(gas) <= 18446744073709551615
+
+//@ func (*TxProcessor).applyTx
+//@   props C05 C06
+//@   requires p != nil && p.am != nil && gp != nil && tx != nil && tx.data.GasPrice != nil && val(tx.data.GasPrice) >= 0 && len(tx.data.Message) <= 1024
+//@   let payer = p.am.GetAccount(tx.GasPayer()); price = val(tx.data.GasPrice)
+//@   ensures result1 == nil ==> old(p.verifyTransactionSigs(tx)) == nil
+//@   ensures result1 == nil ==> gh("hx", 2) == old(types.balanceOf(payer)) - int(tx.GasLimit()) * price
+//@   ensures result1 == nil ==> types.balanceOf(payer) == gh("hx", 0) + gh("hx", 3) * price && int(*gp) == gh("hx", 1) + gh("hx", 3)
+//@   ensures result1 == nil ==> int(result0) == int(tx.GasLimit()) - gh("hx", 3) + gh("boxSubGas", 0) && gh("hx", 3) >= 0 && gh("hx", 3) <= int(tx.GasLimit())
+//@   ensures result1 == nil && tx.Type() != params.BoxTx ==> result0 <= tx.GasLimit()
+//@   ensures result1 == nil ==> int(*gp) == old(int(*gp)) - int(result0)
+//@   ensures result1 != nil ==> int(*gp) <= old(int(*gp))
+//@   modifies allbut(TxProcessor, types.Transaction, types.txdata, types.Header, []*types.Transaction, params, "bigval")
+//@   nopanic
+
+// Block level (the verifying side): the gas pool starts at the header's gas limit and every included transaction takes exactly
+// its gasUsed out of it, so the block's gas never exceeds the limit; the fee handed to the miner's income address is exactly
+// the sum over the block's transactions of gasUsed x gasPrice.
+//@ spec func feeSum(txs []*types.Transaction, k int) mathint = ite(k <= 0, 0, feeSum(txs, k-1) + int(txs[k-1].data.GasUsed) * val(txs[k-1].data.GasPrice))
+//@ pred txsOK(txs []*types.Transaction) = forall(i, 0, len(txs), txs[i] != nil && txs[i].data.GasPrice != nil && val(txs[i].data.GasPrice) >= 0 && len(txs[i].data.Message) <= 1024)
+
+// the block's fee goes to the income address named in the miner's candidate profile (registration validates that address,
+// CheckRegisterTxProfile; without one the fee is dropped and logged)
+//@ func (*TxProcessor).chargeForGas
+//@   props C05
+//@   requires p != nil && p.am != nil && charge != nil
+//@   let s = p.am.GetAccount(minerAddress).GetCandidateState(types.CandidateKeyIncomeAddress)
+//@   let known = res1(common.StringToAddress(s)) == nil; inc = p.am.GetAccount(res0(common.StringToAddress(s)))
+//@   modifies gh("balance", inc)
+//@   ensures val(charge) != 0 && known ==> types.balanceOf(inc) == old(types.balanceOf(inc)) + val(charge)
+//@   ensures val(charge) == 0 || !known ==> types.balanceOf(inc) == old(types.balanceOf(inc))
+//@   panics_if val(charge) != 0 && known && types.balanceOf(inc) + val(charge) < 0
+
+//@ func (*TxProcessor).Process
+//@   props C05
+//@   requires p != nil && p.am != nil && header != nil && txsOK(txs)
+//@   panics_if header.Height == 0
+//@   invariant @loop 0: 0 <= $k && $k <= len(txs) && gp != nil && totalGasFee != nil && txsOK(txs)
+//@   invariant @loop 0: int(*gp) + int(gasUsed) == int(header.GasLimit)
+//@   invariant @loop 0: forall(i, 0, len(txs), val(txs[i].data.GasPrice) == old(val(txs[i].data.GasPrice)))
+//@   invariant @loop 0: val(totalGasFee) == old(feeSum(txs, $k))
+//@   assert @call chargeForGas#0: val(totalGasFee) == old(feeSum(txs, len(txs)))
+//@   ensures result1 == nil ==> result0 <= header.GasLimit
+//@   ensures result1 != nil ==> result1 == ErrInvalidTxInBlock || result1 == ErrTxGasUsedNotEqual
 
 // ---------------------------------------------------------------------------------------------------------------------
 // C11: vote tallies over the ghost account model (types.votesOf / voteForKey / isCand).
@@ -163,6 +235,15 @@ package transaction
 //@ func (*CandidateVoteEnv).unRegisterCandidate
 //@   props C11
 //@   requires c != nil && c.am != nil && candidateAcc != nil && types.ownsVotes(candidateAcc)
-//@   modifies gh("votesPtr", candidateAcc), gh("isCand", candidateAcc), ghall("balance")
+//@   modifies gh("votesPtr", candidateAcc), gh("isCand", candidateAcc), gh("profile", candidateAcc), ghall("balance")
 //@   ensures result ==> !types.isCand(candidateAcc) && types.votesOf(candidateAcc) == 0
 //@   ensures !result ==> types.isCand(candidateAcc) == old(types.isCand(candidateAcc)) && types.votesOf(candidateAcc) == old(types.votesOf(candidateAcc))
+
+// The mining side: the gas of the selected transactions never exceeds the header's limit.  (A transaction that fails after
+// buyGas is reverted in the account state but the gas it bought stays out of the pool, so the pool may under-count: see DESIGN.)
+//@ func (*TxProcessor).ApplyTxs
+//@   props C05
+//@   requires p != nil && p.am != nil && header != nil && txsOK(txs)
+//@   invariant @loop 0: 0 <= $k && $k <= len(txs) && gp != nil && totalGasFee != nil && txsOK(txs)
+//@   invariant @loop 0: int(*gp) + int(gasUsed) <= int(header.GasLimit)
+//@   ensures result2 <= header.GasLimit
